@@ -39,7 +39,14 @@ BUDGET = {"quick": {"examples": 500, "shards": 4}, "thorough": {"examples": 8000
 FLOORS = {"handshake_and_data_share_chunk": 0.15, "cut_inside_header": 0.3, "name_rejected": 0.08, "split_then_shorter_frame": 0.05}
 
 
+def announced_name(raw: str | None) -> str | None:
+    """The device name inside a server hello: the bytes up to the first NUL (newer firmware appends further
+    NUL-terminated fields such as the MAC address after it)."""
+    return None if raw is None else raw.split("\x00", 1)[0]
+
+
 def accept_name(announced: str | None, expected: str | None) -> bool:
+    announced = announced_name(announced)
     return expected is None or announced is None or announced == expected
 
 
@@ -125,7 +132,7 @@ def run_case(case: dict) -> CaseResult:
         else:
             if fed >= hello_end:
                 exc = h.ready_future.exception() if done and not h.ready_future.cancelled() else None
-                if type(exc).__name__ != "BadNameAPIError" or getattr(exc, "received_name", None) != name:
+                if type(exc).__name__ != "BadNameAPIError" or getattr(exc, "received_name", None) != announced_name(name):
                     res.violations.append(Violation(ID, "c03:name:mismatch-not-rejected", f"announced {name!r} expected {expected!r}: ready_future {exc!r}"))
                     break
                 if not conn.errors or type(conn.errors[0]).__name__ != "BadNameAPIError" or not tr.closed:
@@ -235,7 +242,7 @@ def run_api(case: dict) -> CaseResult:
 
 
 # ------------------------------------------------------------------ generators
-NAMES = [None, "dev", "", "kitchen", "küche-✓", "Dev", "dev2", "d"]
+NAMES = [None, "dev", "", "kitchen", "küche-✓", "Dev", "dev2", "d", "dev\x00AABBCCDDEEFF", "kitchen\x00AABBCCDDEEFF", "dev\x00mac\x00x"]
 
 
 @st.composite
